@@ -506,7 +506,7 @@ fn wait_or_kill(child: &mut std::process::Child, secs: u64) -> bool {
 fn run_real_stdio(k: usize, custom_stats: bool) -> Result<(Monitor, u64), String> {
     let s = real_session_setup(&format!("stdio-{k}-{custom_stats}"), custom_stats);
     let log = s.root.join("strace.log");
-    let bin = format!("{VERIF_ROOT}/target/verif/harper-ls-real");
+    let bin = std::env::current_exe().unwrap().with_file_name("harper-ls-real");
     let mut child = Command::new("strace")
         .args(["-f", "-qq", "-e", TRACE, "-o"])
         .arg(&log)
@@ -545,7 +545,7 @@ fn run_real_stdio(k: usize, custom_stats: bool) -> Result<(Monitor, u64), String
 fn run_real_tcp(k: usize) -> Result<(Monitor, u64), String> {
     let s = real_session_setup(&format!("tcp-{k}"), false);
     let log = s.root.join("strace.log");
-    let bin = format!("{VERIF_ROOT}/target/verif/harper-ls-real");
+    let bin = std::env::current_exe().unwrap().with_file_name("harper-ls-real");
     let mut child = Command::new("strace")
         .args(["-f", "-qq", "-e", TRACE, "-o"])
         .arg(&log)
